@@ -6,16 +6,16 @@
    hook point "debug.suspend".  The model ([run_events]) must predict the same indices.
    ProtoCase: a schedule of the suspend/continue protocol that the harness forced on the
    implementation with the hook points, and whether the thread got out of its suspension. *)
-From Coq Require Import List Arith Bool.
+From Coq Require Import List Arith Bool NArith.
 From Ecal Require Import Common.Sched Model.Debugger Spec.DebugSpec.
 Import ListNotations.
 
 Inductive case :=
-| DecCase (id : nat) (edits0 : list edit) (bos boe : bool) (evs : list event)
+| DecCase (id : N) (edits0 : list edit) (bos boe : bool) (evs : list event)
           (cmds : list (list edit * ctype)) (obs : list nat)
-| ProtoCase (id : nat) (sched : list label) (t : nat) (resumed : bool).
+| ProtoCase (id : N) (sched : list label) (t : nat) (resumed : bool).
 
-Definition c_id (c : case) : nat :=
+Definition c_id (c : case) : N :=
   match c with DecCase id _ _ _ _ _ _ => id | ProtoCase id _ _ _ => id end.
 
 Definition stepping (d : dthr) : bool :=
@@ -83,7 +83,7 @@ Definition verdict (c : case) : nat :=
       end
   end.
 
-Definition check_all (cs : list case) : list (nat * nat) :=
+Definition check_all (cs : list case) : list (N * nat) :=
   filter (fun p => negb (Nat.eqb (snd p) 0)) (map (fun c => (c_id c, verdict c)) cs).
 
 Definition model_out (c : case) : list nat :=
